@@ -6,6 +6,7 @@ import (
 	"regexp"
 	"strconv"
 	"strings"
+	"unicode"
 
 	"github.com/antlr4-go/antlr/v4"
 	gen "github.com/nyaruka/goflow/antlr/gen/excellent1"
@@ -63,9 +64,20 @@ func migrateLegacyTemplateAsString(template string, options *MigrateOptions) (st
 	scanner.SetUnescapeBody(false)
 	errors := excellent.NewTemplateErrors()
 
+	// where in the buffer the last expression starts if it was written in its short form, e.g. @fields.age rather than
+	// @(fields.age), and so needs its parentheses back if the text that follows would read as part of it
+	shortFormAt := -1
+
 	for tokenType, token := scanner.Scan(); tokenType != excellent.EOF; tokenType, token = scanner.Scan() {
 		switch tokenType {
 		case excellent.BODY:
+			if shortFormAt >= 0 && continuesIdentifier(token) {
+				identifier := buf.String()[shortFormAt+1:]
+				buf.Truncate(shortFormAt)
+				buf.WriteString("@(" + identifier + ")")
+			}
+			shortFormAt = -1
+
 			buf.WriteString(token)
 		case excellent.IDENTIFIER:
 			value := MigrateContextReference(token, options.RawDates)
@@ -98,7 +110,11 @@ func migrateLegacyTemplateAsString(template string, options *MigrateOptions) (st
 				}
 
 				// optionally wrap expression so that it is URL encoded or defaults to itself on error
-				buf.WriteString(wrapRawExpression(value, errorAs, options.URLEncode))
+				wrapped := wrapRawExpression(value, errorAs, options.URLEncode)
+				if !strings.HasPrefix(wrapped, "@(") {
+					shortFormAt = buf.Len()
+				}
+				buf.WriteString(wrapped)
 			}
 		}
 	}
@@ -202,6 +218,17 @@ func isValidIdentifier(expression string) bool {
 	}
 
 	return false
+}
+
+// whether text following an identifier would be read as a continuation of it, i.e. more name characters or a dot lookup
+func continuesIdentifier(text string) bool {
+	isNameChar := func(r rune) bool { return unicode.IsLetter(r) || unicode.IsNumber(r) || r == '_' }
+
+	runes := []rune(text)
+	if len(runes) > 0 && isNameChar(runes[0]) {
+		return true
+	}
+	return len(runes) > 1 && runes[0] == '.' && isNameChar(runes[1])
 }
 
 // takes a raw expression and wraps it for inclusion in a template, e.g. now() -> @(now())
